@@ -806,7 +806,15 @@ def _is_fresh(func, cfg, nid, e, depth=0):
             dn = cfg.nodes[d]
             if dn.kind != 'stmt' or not isinstance(dn.ast, ast.Assign):
                 return False
-            if not _is_fresh(func, cfg, d, dn.ast.value, depth + 1):
+            val = dn.ast.value
+            t0 = dn.ast.targets[0]
+            if isinstance(t0, (ast.Tuple, ast.List)) and isinstance(val, (ast.Tuple, ast.List)) \
+                    and len(t0.elts) == len(val.elts):
+                # a, b = x, y : the element assigned to this name
+                for tt, vv in zip(t0.elts, val.elts):
+                    if isinstance(tt, ast.Name) and tt.id == e.id:
+                        val = vv
+            if not _is_fresh(func, cfg, d, val, depth + 1):
                 return False
         return True
     return False
